@@ -44,7 +44,7 @@ func genC11(t *rapid.T) C11Case {
 	c := C11Case{F: rapid.IntRange(1, 4).Draw(t, "f"), O: rapid.IntRange(1, 4).Draw(t, "o")}
 	c.Act.Kind = rapid.SampledFrom([]string{"relu", "leaky", "sigmoid", "tanh", "softmax", "sigmoid"}).Draw(t, "act")
 	c.Act.NilConf = rapid.IntRange(0, 3).Draw(t, "actnil") == 0
-	c.Act.M = rapid.SampledFrom([]float64{0.01, 0.2, 0.5}).Draw(t, "m")
+	c.Act.M = rapid.SampledFrom([]float64{0.01, 0.2, 0.5, 0, 1, 2, -0.5}).Draw(t, "m") // any slope is valid, also 0, 1, above 1, negative
 	c.Act.Dim = rapid.IntRange(0, 1).Draw(t, "dim")
 	c.Loss = rapid.SampledFrom([]string{"mse", "bce", "ce"}).Draw(t, "loss")
 	c.NilConf = rapid.IntRange(0, 4).Draw(t, "lrnil") == 0
